@@ -18,5 +18,15 @@ sed -i "s#target-dir = \"/verif/.work/target\"#target-dir = \"$S/verif/.work/tar
 rc=0
 for id in "$@"; do
   (cd "$S/verif" && VERIF_REPO="$S/repo" ./check "$id" 2>&1) | grep -E '^(VIOLATION|KNOWN-FINDING)|\[check\] done|does not build|failing:' | sed "s#$S##g"
+  python3 - "$S/verif/replays" "$id" <<'PY'
+import json, glob, sys
+keys = {}
+for f in sorted(glob.glob(sys.argv[1] + "/" + sys.argv[2] + "-*.json")):
+    try: d = json.load(open(f))
+    except Exception: continue
+    k = d.get("key") or d.get("kind") or "?"
+    keys[k] = keys.get(k, 0) + 1
+print("KEYS %s: %s" % (sys.argv[2], "; ".join(sorted(keys)) or "-"))
+PY
 done
 exit $rc
